@@ -535,6 +535,6 @@ func drawIndex(t *rapid.T) vcase {
 
 func TestIndex(t *testing.T) {
 	grid := indexGrid()
-	vk.Enumerate(t, "index-grid", len(grid), func(i int) vcase { return grid[i] }, checkIndex)
+	vk.Enumerate(t, "index", len(grid), func(i int) vcase { return grid[i] }, checkIndex)
 	vk.Run(t, "index", vk.Opts{Quick: 12000, Thorough: 150000, NoCrumb: true}, drawIndex, checkIndex)
 }
